@@ -118,6 +118,22 @@ def quat_to_matrix(q):
     ])
 
 
+def _eps_decider(above):
+    """data-dependent tests of the form `<anything> > _EPS` (whatever the compared local is called) are taken as `above`:
+    True selects the generic branch, False the degenerate one; any other data-dependent test stays undecided"""
+    def decide(frame, test):
+        if isinstance(test, ast.Compare) and len(test.ops) == 1:
+            l_, r_ = ast.unparse(test.left), ast.unparse(test.comparators[0])
+            if isinstance(test.ops[0], (ast.Gt, ast.GtE)) and r_.split(".")[-1] == "_EPS":
+                return above
+            if isinstance(test.ops[0], (ast.Lt, ast.LtE)) and l_.split(".")[-1] == "_EPS":
+                return above
+            if isinstance(test.ops[0], (ast.Lt, ast.LtE)) and r_.split(".")[-1] == "_EPS":
+                return not above
+        return None
+    return decide
+
+
 def check(run):
     ix = Index(run.repo)
     run.analysed.update(ix.stats())
@@ -222,7 +238,8 @@ def check(run):
             captured.append(f)
             return f
 
-        it2 = Interp(ix, symbols=dict(consts), trig=trig, decisions={"sy > _EPS": True, "cy > _EPS": True})
+        it2 = Interp(ix, symbols=dict(consts), trig=trig)
+        it2.decider = _eps_decider(True)
         it2.ext_arctan2 = atan2_stub
         try:
             out = it2.call(f_efm, [M4], {"axes": axes})
@@ -264,7 +281,8 @@ def check(run):
         Mg[...] = sp.Integer(0)
         Mg[:3, :3] = np.array(ref.subs(lock).tolist(), dtype=object)
         Mg[3, 3] = sp.Integer(1)
-        it2b = Interp(ix, symbols=dict(consts), trig=trig, decisions={"sy > _EPS": False, "cy > _EPS": False})
+        it2b = Interp(ix, symbols=dict(consts), trig=trig)
+        it2b.decider = _eps_decider(False)
         it2b.ext_arctan2 = lambda y, x: sp.Function("ATAN2")(sp.sympify(y), sp.sympify(x))
         decided = True
         try:
@@ -566,7 +584,8 @@ def check(run):
     trig = Trig()
     ang = sp.Symbol("theta", real=True)
     ax_ = [sp.Symbol(f"d{i}", real=True) for i in range(3)]
-    it_ = Interp(ix, symbols=dict(consts), trig=trig, decisions={"qlen > _EPS": True})
+    it_ = Interp(ix, symbols=dict(consts), trig=trig)
+    it_.decider = _eps_decider(True)
     it_.stubs["trimesh.transformations:vector_norm"] = lambda itp, args, kw: (itp.assume("quaternion_about_axis: axis taken as unit (|d| = 1)"), sp.Integer(1))[1]
     try:
         qa = list(arr(it_.call(f_qaa, [ang, np.array(ax_, dtype=object)])))
